@@ -10,6 +10,18 @@ COMMON_NOTE = ("Trusted base: pyvc engine (AST transform T1-T3 of the real sourc
                "lift to C), A3 (integer powers), A4 (path forking via z3), A5 (numpy shim contracts, listed per run in evidence.trusted_base). ")
 
 CLAIMED = {
+    "C27": dict(
+        category="proof",
+        text=("The real dispatchers gamma_ns / gamma_singlet (unpolarised space-like orders 1-4 incl. both N3LO parametrisations and their variations; time-like and polarised orders 1-3) "
+              "are executed with symbolic real N (symbolic nf outside FHMRUVV) over the polygamma contract, and the resulting term is expanded for N -> infinity in an exact asymptotic-series "
+              "domain (powers of 1/N and ln N with polynomial coefficients in nf, zeta_k; the only analytic input is the textbook asymptotic series of psi^(k)). Ensures per entry: no positive "
+              "power of N and no ln^j N, j >= 2, survives; the ln N coefficient equals A_k (non-singlet) resp. (CA/CF) A_k (gluon-gluon): exactly at k = 1, to the 16 decimal digits of the "
+              "literals at k = 2, to the printed digits coefficient-by-coefficient in nf at k = 3, 4; FHMRUVV central members within the quoted uncertainty of A_4, band members bracket it. "
+              "Two known findings: F27 (N3LO gg carries the literature gluon cusp coefficient, not (CA/CF) A_4) and F28 (time-like NNLO valence entry has the ns- part with the wrong sign: ln N coefficient -A_3)."),
+        note=COMMON_NOTE + "Trusted: asymptotic series of psi^(k) (Abramowitz-Stegun 6.3.18, 6.4.11), literature values of A_1..A_4. Real N -> +infinity only.",
+        technique="contract-based deductive verification: symbolic execution over the polygamma contract + exact asymptotic-expansion domain (lemma: leading large-N coefficient)",
+        design_ref="DESIGN.md section 2, C27",
+    ),
     "C29": dict(
         category="proof",
         text=("Exact clauses through O(a_s^2) with the polygamma contract: (1) momentum at N = 2 for the unpolarised space-like matching: O(a_s) every column identically in L; O(a_s^2) the "
@@ -452,7 +464,6 @@ NA = {
     "C05": "1%-tolerance integrals of interpolated x-space PDFs: no exact postcondition; quadrature in floats (Mellin core covered by C11/C25)",
     "C06": "'within interpolation accuracy, shrinking under refinement': asymptotic numerics (exact composition facts are covered by C02/C10/C22)",
     "C12": "convergence rate of iterated/perturbative discretisations towards a solution without closed form: no finite pre/postcondition decides it",
-    "C27": "N -> infinity asymptotics of parametrised expressions: no contract at finite N expresses it",
     "C28": "Python-vs-Rust equivalence: no Rust verifier installed; would be translation validation (different family)",
     "C35": "accuracy of numerical contour integration (scipy.integrate.quad) is outside the verifier's reach",
     "C41": "the only specification of 'equivalent legacy upgrade' is a restatement of the converter; no fixtures in this snapshot",
